@@ -108,6 +108,14 @@ def gen_bt_dtypes(repo):
     return m
 
 
+def gen_timedelta_float(repo):
+    m = T.Module(f"{repo}/src/nitypes/bintime/_timedelta.py", "Gen.TimeDeltaFloat")
+    m.translate_int_constants()
+    m.translate_float_to_int("TimeDelta", "_to_ticks", "float", "to_ticks_float", "seconds")
+    m.extra_dispatch = ['  | "TimeDeltaFloat.to_ticks_float", [n, e] => some (Py.render (to_ticks_float ⟨n, e.toNat⟩))']
+    return m
+
+
 def gen_complex_dtypes(repo):
     m = T.Module(f"{repo}/src/nitypes/complex/_dtypes.py", "Gen.ComplexDtypes")
     m.translate_dtype_fields("ComplexInt32DType")
@@ -203,6 +211,7 @@ MODULES = [
     ("DateTime", lambda repo, deps: gen_datetime(repo, deps["TimeValueTuple"], deps["TimeDelta"]),
      ["TimeValueTuple", "TimeDelta"]),
     ("BtDtypes", lambda repo, deps: gen_bt_dtypes(repo), []),
+    ("TimeDeltaFloat", lambda repo, deps: gen_timedelta_float(repo), []),
     ("ComplexDtypes", lambda repo, deps: gen_complex_dtypes(repo), []),
     ("Scaling", lambda repo, deps: gen_scaling(repo), []),
     ("Irregular", lambda repo, deps: gen_irregular(repo), []),
